@@ -171,9 +171,10 @@ func c06Judge(c *mon.Ctx, cs *c06Case) {
 	var libErr error
 	opts := []interpreter.ExecutionOptionFunc{
 		interpreter.WithTx(tx, cs.Idx, &bt.Output{Satoshis: cs.Sats, LockingScript: bscript.NewFromBytes(append([]byte{}, cs.Lock...))}),
-		interpreter.WithFlags(scriptflag.Flag(cs.Flags)),
 		interpreter.WithDebugger(rec),
 	}
+	// the flag set reaches the engine through WithFlags and/or the convenience options, in varying order
+	opts = append(opts, flagOptions(cs.Flags, len(unlock)+3*len(cs.Lock)+cs.Idx)...)
 	if !c.Try("interpreter.Engine.Execute", func() { libErr = theEngine(c).Execute(opts...) }) {
 		return
 	}
@@ -219,6 +220,13 @@ type c06Spec struct {
 	// UnlockTail is appended to the unlocking script after the pushes (e.g. an
 	// executed OP_CODESEPARATOR and/or a top-level OP_RETURN ending the script)
 	UnlockTail []byte
+	// UnlockCheck: the unlocking script starts with a signature check of its
+	// own, <sigX> [NOP*] CODESEPARATOR <pubX> CHECKSIGVERIFY, with a correct
+	// signature of the last key; UnlockCheckHT is its hash type and
+	// UnlockCheckPad the number of NOPs (which moves the separator's index).
+	UnlockCheck    bool
+	UnlockCheckHT  byte
+	UnlockCheckPad int
 }
 
 func smallOp(n int) []byte {
@@ -351,8 +359,16 @@ func c06Make(r *prng.R, sp *c06Spec) *c06Case {
 	cs.Idx = r.Intn(len(shape.Ins))
 	forkFlag := scriptflag.Flag(sp.Flags)&scriptflag.EnableSighashForkID != 0
 	// pass 1: placeholders, learn the script code in force at every check
+	var sigX []byte
 	mkUnlock := func(sigs [][]byte) []byte {
 		var u []byte
+		if sp.UnlockCheck {
+			u = append(u, gen.Push(sigX)...)
+			u = append(u, bytes.Repeat([]byte{0x61}, sp.UnlockCheckPad)...)
+			u = append(u, 0xab)
+			u = append(u, gen.Push(pubs[nk-1].SerialiseCompressed())...)
+			u = append(u, 0xad)
+		}
 		if sp.Kind == "multisig" {
 			u = append(u, gen.MinPush(sp.Dummy)...)
 		}
@@ -370,6 +386,9 @@ func c06Make(r *prng.R, sp *c06Spec) *c06Case {
 		d := sha256.Sum256([]byte{byte(i), 0x5a})
 		place[i] = append(signDER(privs[0], d[:]), sl.HashType)
 	}
+	dx := sha256.Sum256([]byte("placeholder of the unlocking script's own check"))
+	placeX := append(signDER(privs[0], dx[:]), sp.UnlockCheckHT)
+	sigX = placeX
 	cs.Tx.Ins[cs.Idx].Unlock = mkUnlock(place)
 	cs.Tx.Ins[cs.Idx].UnlockNil = false
 	logger := &provChecker{tx: shModelTx(&cs.Tx), idx: cs.Idx, sats: cs.Sats, logOnly: true, codes: map[string][]byte{}}
@@ -418,6 +437,21 @@ func c06Make(r *prng.R, sp *c06Spec) *c06Case {
 			b := signDER(privs[key], dem)
 			reg(b, key, dem)
 			final[i] = append(b, sl.HashType)
+		}
+	}
+	if sp.UnlockCheck {
+		// pass 3: the script code of the unlocking script's own check contains
+		// the final signatures pushed behind it
+		cs.Tx.Ins[cs.Idx].Unlock = mkUnlock(final)
+		logger2 := &provChecker{tx: shModelTx(&cs.Tx), idx: cs.Idx, sats: cs.Sats, logOnly: true, codes: map[string][]byte{}}
+		in.Unlock = cs.Tx.Ins[cs.Idx].Unlock
+		refscript.Verify(in.Unlock, lock, modelOpts(in, logger2, false))
+		if code, ok := logger2.codes[string(placeX[:len(placeX)-1])]; ok {
+			if dem := logger2.demanded(code, sp.UnlockCheckHT, forkFlag); dem != nil {
+				b := signDER(privs[nk-1], dem)
+				cs.Sigs = append(cs.Sigs, c06SigRec{Body: b, Key: nk - 1, Digest: dem})
+				sigX = append(b, sp.UnlockCheckHT)
+			}
 		}
 	}
 	cs.Tx.Ins[cs.Idx].Unlock = mkUnlock(final)
@@ -495,7 +529,7 @@ func init() {
 			}
 			cs := c06Make(r, sp)
 			cs.Class = class
-			cs.Desc = fmt.Sprintf("%s m=%d n=%d verify=%v not=%v sep=%d/%s slots=%+v keyenc=%v unlocktail=%x", sp.Kind, sp.M, sp.N, sp.Verify, sp.Not, sp.SepPos, sp.SepKind, sp.Slots, sp.KeyEnc, sp.UnlockTail)
+			cs.Desc = fmt.Sprintf("%s m=%d n=%d verify=%v not=%v sep=%d/%s slots=%+v keyenc=%v unlocktail=%x unlockcheck=%v/%#x/%d", sp.Kind, sp.M, sp.N, sp.Verify, sp.Not, sp.SepPos, sp.SepKind, sp.Slots, sp.KeyEnc, sp.UnlockTail, sp.UnlockCheck, sp.UnlockCheckHT, sp.UnlockCheckPad)
 			judge(c, cs)
 		}
 		flagsFor := func(r *prng.R) uint32 {
@@ -550,6 +584,13 @@ func init() {
 										sp.Kind, sp.Verify = "p2pk", true
 									}
 									sp.Slots = []c06Slot{slot(r, 0, cl, fork)}
+									if r.Chance(1, 4) && scriptflag.Flag(fl)&scriptflag.VerifySigPushOnly == 0 { // a signature check inside the unlocking script as well
+										sp.UnlockCheck, sp.UnlockCheckPad = true, r.Intn(3)
+										sp.UnlockCheckHT = c06HashType(r, fork)
+										if r.Chance(2, 3) {
+											sp.UnlockCheckHT = sp.Slots[0].HashType // the same hash type as the check in the locking script
+										}
+									}
 									if kind == "two-checks" {
 										sp.N = 2
 										sp.KeyEnc = []string{"c", ke}
